@@ -29,7 +29,7 @@ RULE = ("case = parameter definition + permutations; non-trivial = >=2 parameter
         "parameter with a multi-valued sub-parameter; distinct by sha1(case)")
 ASSUMPTIONS = ["values are distinct after str() within one parameter (regularisation stringifies them)"]
 BUDGET = {"quick": {"workers": 4, "examples": 1200, "seconds": 30},
-          "thorough": {"workers": 16, "examples": 12000, "seconds": 300}}
+          "thorough": {"workers": 16, "examples": 12000, "seconds": 450}}
 
 PNAMES = ["algo", "algo_params", "dist", "graph", "a", "b", "b1", "b10", "collect_on", "period", "timeout", "A"]
 SUBNAMES = ["variant", "probability", "stop_cycle", "p", "q", "damping"]
